@@ -1,4 +1,24 @@
-(** * ExitP: holders can always exit (property C09, first sentence), handler level. *)
+(** * ExitP: holders can always exit (property C09, first sentence), handler level.
+
+    Main results
+    - [slashing_spec] / [slashing_succeeds] : what the pool synchronisation does; under E1 it cannot fail.
+    - [unbond_succeeds]      : while the hub is not paused, for every 0 < a <= total supply of the token
+                               (hence every positive part of any holder's balance) the hub's
+                               Receive{Unbond} handler succeeds, for stSei and for bSei: every failing
+                               branch (slashing arithmetic, peg-fee subtractions, supply - a, wait-list
+                               addition, the undelegation plan, pool subtractions) is unreachable.
+                               Premises (all named): Wired (E4), HPInv (proved invariant), E1_exit, E2_clock,
+                               BooksSynced (Books after sync), BackedSynced (= not Known_F5 after sync).
+    - [unbond_F5_witness]    : the excluded class is real (finding F5): a reachable world where every
+                               other premise holds, the synced hub has backing 0 and a requested bSei,
+                               and bob's stSei unbond fails (handler and transaction).
+    - [undelegated_by_first_after_epoch] : a successful unbond arriving more than epoch_period after
+                               the last undelegation closes the batch: the history entry holds ALL requests
+                               of the batch including this one, batch id + 1, only Undelegate + Burn emitted.
+    - [token_send_unbond_succeeds] : the token contracts accept Send{hub, a, hook} from a holder of
+                               a > 0 tokens and emit exactly the mirror updates and the hub Receive.
+    - [BooksSynced_intro], [BooksSynced_of_Books], [Backed_iff_not_F5] : how the named premises relate.
+    - non-vacuity: [unbond_succeeds_nonvacuous], [unbond_tx_examples]. *)
 From Krp Require Import Tactics Prelude Fixed FMap Types Env Registry Cw20 Reward Dispatcher Hub Exec
      ExecP Inv RegistryP HubFrame HubAdmin Cw20P ExitWorld.
 Open Scope N_scope.
@@ -539,7 +559,7 @@ Proof.
   split; [split; vm_compute; discriminate|].
   split.
   { unfold E1_exit. do 5 (split; [vm_compute; discriminate|]).
-    apply (wait_bounded_of_forallb hub_f5). vm_compute. reflexivity. }
+    intros u. apply (wait_bounded_of_forallb hub_f5). vm_compute. reflexivity. }
   split; [vm_compute; discriminate|].
   split; [intros h1 H; rewrite synced_f5 in H; apply some_inj in H; subst h1; vm_compute; discriminate|].
   split.
@@ -569,9 +589,207 @@ Proof.
   split; [split; vm_compute; discriminate|].
   split.
   { unfold E1_exit. do 5 (split; [vm_compute; discriminate|]).
-    apply (wait_bounded_of_forallb hub1). vm_compute. reflexivity. }
+    intros u. apply (wait_bounded_of_forallb hub1). vm_compute. reflexivity. }
   split; [vm_compute; discriminate|].
   split; [intros h1 H; rewrite synced_1 in H; apply some_inj in H; subst h1; vm_compute; discriminate|].
   split; [intros h1 H; rewrite synced_1 in H; apply some_inj in H; subst h1; split; intros _; vm_compute; reflexivity|].
   repeat split; vm_compute; reflexivity.
 Qed.
+
+(** ** undelegated_by_first_after_epoch *)
+Lemma get_hist_put_same m i e : get N.eqb (hist_put m i e) i = Some e.
+Proof.
+  induction m as [|[j e'] r IH]; cbn [hist_put get].
+  - rewrite N.eqb_refl. reflexivity.
+  - destruct (i =? j) eqn:E1; cbn [get]; [rewrite N.eqb_refl; reflexivity|].
+    destruct (i <? j); cbn [get]; [rewrite N.eqb_refl; reflexivity | rewrite E1; exact IH].
+Qed.
+
+Lemma get_hist_put_other m i e k : k <> i -> get N.eqb (hist_put m i e) k = get N.eqb m k.
+Proof.
+  intros Hk. apply N.eqb_neq in Hk. induction m as [|[j e'] r IH]; cbn [hist_put get].
+  - rewrite Hk. reflexivity.
+  - destruct (i =? j) eqn:E1; cbn [get].
+    + apply N.eqb_eq in E1. subst j. rewrite Hk. reflexivity.
+    + destruct (i <? j); cbn [get]; [rewrite Hk; reflexivity|]. destruct (k =? j); [reflexivity | exact IH].
+Qed.
+
+Lemma slashing_lut w self h h1 :
+  slashing w self h = Some h1 -> hs_lut (h_state h1) = hs_lut (h_state h).
+Proof.
+  unfold slashing. intros H. bind_inv H as s1 Hs. inversion H; subst h1. cbn [h_state set_h_state].
+  unfold query_actual_state in Hs. inv_all Hs; try reflexivity.
+  match goal with E : (if ?c then _ else _) = Some _ |- _ => destruct c; inv_all E; reflexivity end.
+Qed.
+
+(** what a batch-closing [maybe_undelegate] does to the in-memory hub *)
+Definition closed_batch (now : N) (h h' : hub) : Prop :=
+  let cb := h_batch h in
+  exists e,
+    get N.eqb (h_hist h') (cb_id cb) = Some e /\
+    he_time e = now /\ he_released e = false /\
+    he_bamt e = cb_reqb cb /\ he_samt e = cb_reqst cb /\
+    he_bapplied e = hs_ber (h_state h) /\ he_sapplied e = hs_ser (h_state h) /\
+    (forall k, k <> cb_id cb -> get N.eqb (h_hist h') k = get N.eqb (h_hist h) k) /\
+    h_batch h' = mkBatch (cb_id cb + 1) 0 0 /\
+    hs_lut (h_state h') = now /\ h_wait h' = h_wait h.
+
+Lemma maybe_undelegate_closes w self h h' msgs :
+  maybe_undelegate w self h = Some (h', msgs) ->
+  hp_epoch (h_params h) < e_now (w_env w) - hs_lut (h_state h) ->
+  closed_batch (e_now (w_env w)) h h' /\
+  forallb (fun m => match m with MUndelegate _ _ => true | _ => false end) msgs = true.
+Proof.
+  unfold maybe_undelegate, sub64. intros H Hep.
+  destruct (hs_lut (h_state h) <=? e_now (w_env w)); [|discriminate]. cbn [bind] in H.
+  apply N.ltb_lt in Hep. rewrite Hep in H. unfold process_undelegations in H.
+  bind_inv H as su E1. bind_inv H as bu E2. bind_inv H as cl E3. bind_inv H as ms E4.
+  bind_inv H as bst E5. bind_inv H as bb E6. bind_inv H as id' E7. inversion H; subst h' msgs. clear H.
+  unfold add64 in E7. destruct (fits64 (cb_id (h_batch h) + 1)); inversion E7; subst id'.
+  split.
+  - unfold closed_batch. eexists. cbn [h_hist h_batch h_state h_wait set_h_state set_h_batch set_h_hist hs_lut].
+    split; [apply get_hist_put_same|]. cbn [he_time he_released he_bamt he_samt he_bapplied he_sapplied].
+    repeat split; try reflexivity. intros k Hk. apply get_hist_put_other. exact Hk.
+  - unfold pick_validator in E4. bind_inv E4 as ys Hys. inversion E4; subst ms.
+    clear. induction (combine (sort_desc (all_delegations (w_env w) self)) ys) as [|p l IH]; [reflexivity|].
+    cbn [flat_map]. rewrite forallb_app, IH. destruct (snd p =? 0); reflexivity.
+Qed.
+
+(** If the epoch period has passed since the last undelegation, a successful unbond — the first one
+    to arrive — closes the open batch: the new history entry carries ALL requests of the batch
+    including this one (for bSei: the amount after the peg fee, which is what the user's wait-list
+    entry records), the batch id increases, a fresh empty batch is opened, and the only messages
+    emitted are Undelegate messages followed by the Burn. *)
+Theorem undelegated_by_first_after_epoch w h sender user a h' out :
+  receive_cw20 w h A_hub sender user a HkUnbond = Some (h', out) ->
+  hp_epoch (h_params h) < e_now (w_env w) - hs_lut (h_state h) ->
+  let cb := h_batch h in
+  exists e awf msgs tok,
+    get N.eqb (h_hist h') (cb_id cb) = Some e /\
+    he_time e = e_now (w_env w) /\ he_released e = false /\
+    ((hc_bsei (h_cfg h) = Some sender /\ awf <= a /\
+      he_bamt e = cb_reqb cb + awf /\ he_samt e = cb_reqst cb /\
+      wait_of h' user (cb_id cb) = (fst (wait_of h user (cb_id cb)) + awf, snd (wait_of h user (cb_id cb))))
+     \/
+     (hc_stsei (h_cfg h) = Some sender /\ awf = a /\
+      he_bamt e = cb_reqb cb /\ he_samt e = cb_reqst cb + a /\
+      wait_of h' user (cb_id cb) = (fst (wait_of h user (cb_id cb)), snd (wait_of h user (cb_id cb)) + a))) /\
+    (forall k, k <> cb_id cb -> get N.eqb (h_hist h') k = get N.eqb (h_hist h) k) /\
+    h_batch h' = mkBatch (cb_id cb + 1) 0 0 /\
+    hs_lut (h_state h') = e_now (w_env w) /\
+    out = msgs ++ [burn_msg tok a] /\
+    forallb (fun m => match m with MUndelegate _ _ => true | _ => false end) msgs = true.
+Proof.
+  intros H Hep cb. unfold receive_cw20 in H. bind_inv H as b Hb. bind_inv H as st Hst.
+  destruct (sender =? b) eqn:Eb.
+  - apply N.eqb_eq in Eb. subst b. unfold execute_unbond in H.
+    bind_inv H as h1 Hh1. pose proof (slashing_lut _ _ _ _ Hh1) as Hlut.
+    pose proof (slashing_frame _ _ _ _ Hh1) as (F1 & F2 & F3 & F4 & F5 & F6 & F7).
+    bind_inv H as supply Hs. bind_inv H as awf Hawf. bind_inv H as reqb Hreqb.
+    bind_inv H as h2 Hh2. bind_inv H as supply' Hs'. bind_inv H as ber Hber.
+    bind_inv H as r Hr. destruct r as [h4 msgs]. bind_inv H as tok Htok. inversion H; subst h' out. clear H.
+    assert (Hle : awf <= a).
+    { destruct (hs_ber (h_state h1) <? hp_thr (h_params h)); [|inversion Hawf; lia].
+      bind_inv Hawf as mf Hmf. bind_inv Hawf as c Hc. bind_inv Hawf as rq Hrq.
+      unfold sub128 in Hawf. destruct (peg_fee mf rq <=? a); inversion Hawf. lia. }
+    unfold add128, narrow128 in Hreqb. destruct (fits128 (cb_reqb (h_batch h1) + awf)); inversion Hreqb; subst reqb.
+    unfold add_wait in Hh2. destruct (wait_of h1 user (cb_id (h_batch h1))) as [x y] eqn:Ew.
+    bind_inv Hh2 as x' Hx'. cbn [bind] in Hh2. inversion Hh2; subst h2. clear Hh2.
+    unfold add128, narrow128 in Hx'. destruct (fits128 (x + awf)); inversion Hx'; subst x'.
+    apply maybe_undelegate_closes in Hr;
+      [|cbn [h_params h_state set_h_batch set_h_state set_h_wait set_ber set_rates hs_lut]; rewrite F2, Hlut; exact Hep].
+    destruct Hr as [(e & G1 & G2 & G3 & G4 & G5 & _ & _ & G6 & G7 & G8 & G9) Hm].
+    cbn [h_batch h_hist h_wait set_h_batch set_h_state set_h_wait cb_id cb_reqb cb_reqst] in *.
+    assert (Ew0 : wait_of h user (cb_id (h_batch h)) = (x, y)).
+    { rewrite <- Ew, F3. unfold wait_of. rewrite F5. reflexivity. }
+    exists e, awf, msgs, tok. subst cb. rewrite F3 in *. rewrite F6 in G6.
+    split; [exact G1|]. split; [exact G2|]. split; [exact G3|].
+    split.
+    { left. split; [first [exact Hb | reflexivity]|]. split; [exact Hle|]. split; [exact G4|]. split; [exact G5|].
+      rewrite Ew0. cbn [fst snd]. unfold wait_of. rewrite G9.
+      rewrite (get_set_same eqbAN); [reflexivity|]. exact eqbNN_eq. }
+    split; [exact G6|]. split; [exact G7|]. split; [exact G8|]. split; [reflexivity | exact Hm].
+  - destruct (sender =? st) eqn:Est; [|discriminate].
+    apply N.eqb_eq in Est. subst st. unfold execute_unbond_stsei in H.
+    bind_inv H as h1 Hh1. pose proof (slashing_lut _ _ _ _ Hh1) as Hlut.
+    pose proof (slashing_frame _ _ _ _ Hh1) as (F1 & F2 & F3 & F4 & F5 & F6 & F7).
+    bind_inv H as reqst Hreqst. bind_inv H as h2 Hh2.
+    bind_inv H as r Hr. destruct r as [h4 msgs]. bind_inv H as tok Htok. inversion H; subst h' out. clear H.
+    unfold add128, narrow128 in Hreqst. destruct (fits128 (cb_reqst (h_batch h1) + a)); inversion Hreqst; subst reqst.
+    unfold add_wait in Hh2. destruct (wait_of h1 user (cb_id (h_batch h1))) as [x y] eqn:Ew.
+    cbn [bind] in Hh2. bind_inv Hh2 as y' Hy'. inversion Hh2; subst h2. clear Hh2.
+    unfold add128, narrow128 in Hy'. destruct (fits128 (y + a)); inversion Hy'; subst y'.
+    apply maybe_undelegate_closes in Hr;
+      [|cbn [h_params h_state set_h_batch set_h_state set_h_wait hs_lut]; rewrite F2, Hlut; exact Hep].
+    destruct Hr as [(e & G1 & G2 & G3 & G4 & G5 & _ & _ & G6 & G7 & G8 & G9) Hm].
+    cbn [h_batch h_hist h_wait set_h_batch set_h_state set_h_wait cb_id cb_reqb cb_reqst] in *.
+    assert (Ew0 : wait_of h user (cb_id (h_batch h)) = (x, y)).
+    { rewrite <- Ew, F3. unfold wait_of. rewrite F5. reflexivity. }
+    exists e, a, msgs, tok. subst cb. rewrite F3 in *. rewrite F6 in G6.
+    split; [exact G1|]. split; [exact G2|]. split; [exact G3|].
+    split.
+    { right. split; [first [exact Hst | reflexivity]|]. split; [reflexivity|]. split; [exact G4|]. split; [exact G5|].
+      rewrite Ew0. cbn [fst snd]. unfold wait_of. rewrite G9.
+      rewrite (get_set_same eqbAN); [reflexivity|]. exact eqbNN_eq. }
+    split; [exact G6|]. split; [exact G7|]. split; [exact G8|]. split; [reflexivity | exact Hm].
+Qed.
+
+(** ** Token level: the holder's Send{hub, a, Unbond} is accepted by the token contract *)
+Lemma tok_move_ok t from to amt :
+  amt <= tbal t from -> tbal t to + amt <= U128MAX -> exists t', tok_move t from to amt = Some t'.
+Proof.
+  intros Hle Hfit. unfold tok_move. rewrite sub128_ok by exact Hle. cbn [bind].
+  destruct (N.eq_dec to from) as [->|Hne].
+  - rewrite tbal_set_same. rewrite add128_ok by lia. cbn [bind]. eexists; reflexivity.
+  - rewrite tbal_set_other by exact Hne. rewrite add128_ok by exact Hfit. cbn [bind]. eexists; reflexivity.
+Qed.
+
+Lemma holder_le_supply t x : TInv t -> tbal t x <= tk_supply t.
+Proof. intros H. unfold TInv in H. rewrite <- H. apply tbal_le_sum. Qed.
+
+Lemma wired_reward_contract w tb :
+  Wired w -> w_bsei w = Some tb -> query_reward_contract w tb = Some A_reward.
+Proof.
+  intros HW Hb. apply Wired_inv in HW.
+  destruct HW as (h & r & d & g & tb0 & ts0 & E1 & E2 & E3 & E4 & E5 & E6 & W1 & W2 & W3 & W4 & W5 & W6 &
+                  W7 & W8 & W9 & W10 & W11 & W12).
+  rewrite Hb in E5. inversion E5; subst tb0. unfold query_reward_contract.
+  rewrite W11, E1. cbn [bind]. rewrite W1. cbn [bind]. rewrite E3. cbn [bind]. rewrite W8. reflexivity.
+Qed.
+
+(** a holder of [a > 0] tokens: the token contract accepts the Send and emits exactly the mirror
+    updates (bSei only) and the hub's Receive{Unbond}; the amount is within the token supply, so
+    [unbond_succeeds] applies to the emitted Receive *)
+Theorem token_send_unbond_succeeds w tb ts user a hk :
+  Wired w -> w_bsei w = Some tb -> w_stsei w = Some ts -> TInv tb -> TInv ts ->
+  tk_supply tb <= LIM -> tk_supply ts <= LIM -> 0 < a ->
+  (a <= tbal tb user ->
+     a <= tk_supply tb /\
+     exists tb', bsei_execute w tb user (CSend A_hub a hk)
+                 = Some (tb', [m_dec A_reward user a; m_inc A_reward A_hub a; m_receive A_hub user a hk])) /\
+  (a <= tbal ts user ->
+     a <= tk_supply ts /\
+     exists ts', stsei_execute w ts user (CSend A_hub a hk) = Some (ts', [m_receive A_hub user a hk])).
+Proof.
+  intros HW Hb Hs Tb Ts Lb Ls Ha. pose proof LIM2_fits as HL2. split; intros Hle.
+  - pose proof (holder_le_supply tb user Tb). pose proof (holder_le_supply tb A_hub Tb).
+    split; [lia|]. unfold bsei_execute. rewrite (wired_reward_contract w tb HW Hb). cbn [bind].
+    assert (Hz : negb (a =? 0) = true) by (apply negb_true_iff; apply N.eqb_neq; lia). rewrite Hz.
+    destruct (tok_move_ok tb user A_hub a Hle) as [tb' Hm]; [lia|]. rewrite Hm. cbn [bind].
+    eexists; reflexivity.
+  - pose proof (holder_le_supply ts user Ts). pose proof (holder_le_supply ts A_hub Ts).
+    split; [lia|]. unfold stsei_execute.
+    assert (Hz : negb (a =? 0) = true) by (apply negb_true_iff; apply N.eqb_neq; lia). rewrite Hz.
+    destruct (tok_move_ok ts user A_hub a Hle) as [ts' Hm]; [lia|]. rewrite Hm. cbn [bind].
+    eexists; reflexivity.
+Qed.
+
+(** whole transactions on the concrete world (full and partial balances, both tokens): they succeed
+    and, the epoch being over, undelegate *)
+Example unbond_tx_examples :
+  fst (snd (step world1 (OTx alice A_bsei (WCw20 (CSend A_hub 1000000 HkUnbond)) []))) = true /\
+  fst (snd (step world1 (OTx alice A_bsei (WCw20 (CSend A_hub 1 HkUnbond)) []))) = true /\
+  fst (snd (step world1 (OTx bob A_stsei (WCw20 (CSend A_hub 2000000 HkUnbond)) []))) = true /\
+  existsb (fun sm => match snd sm with MUndelegate _ _ => true | _ => false end)
+          (snd (snd (step world1 (OTx bob A_stsei (WCw20 (CSend A_hub 7 HkUnbond)) [])))) = true.
+Proof. vm_compute. repeat split. Qed.
